@@ -191,7 +191,7 @@ func (p payloadErrVal) Error() string {
 	return fmt.Sprintf("finding %d (a value, not a failure)", p.Tok)
 }
 
-const nPayloadKinds = 9
+const nPayloadKinds = 10
 
 // typed nil pointers: they carry no data, so the token is recovered from the pointer TYPE
 // (the most recently created payload of that type; eight types are cycled through, and a
@@ -293,6 +293,8 @@ func (r *Registry) Payload(tok int) any {
 		v = []int{tok, tok}
 	case 8:
 		v = payloadErrVal{Tok: tok}
+	case 9:
+		v = flyt.Action(fmt.Sprintf("act-payload-%d", tok)) // a value whose dynamic type is flyt.Action is data like any other
 	case 7:
 		if r.NoTypedNil {
 			v = &payloadPtr{Tok: tok}
@@ -354,6 +356,11 @@ func (r *Registry) Observe(v any) (tok int, same bool) {
 		tok = x.Tok
 	case payloadErrVal:
 		tok = x.Tok
+	case flyt.Action:
+		var t int
+		if _, err := fmt.Sscanf(string(x), "act-payload-%d", &t); err == nil {
+			tok = t
+		}
 	case int:
 		tok = x
 	case string:
